@@ -5,8 +5,8 @@ cd /verif
 for id in $(python3 -c "import json;print(' '.join(c['property_id'] for c in json.load(open('MANIFEST.json'))['checks']))"); do
   if grep -q "^$id " $LOG 2>/dev/null; then continue; fi
   t0=$(date +%s)
-  out=$(timeout 4000 ./bin/vcheck $id --tier thorough 2>&1 | tail -3 | tr '\n' '|')
+  timeout 4500 ./bin/vcheck $id --tier thorough > /tmp/thorough_$id.out 2>&1
   rc=$?
-  echo "$id rc=${PIPESTATUS[0]} secs=$(( $(date +%s)-t0 )) :: $out" >> $LOG
+  echo "$id rc=$rc secs=$(( $(date +%s)-t0 )) :: $(tail -2 /tmp/thorough_$id.out | tr '\n' '|' | cut -c1-300)" >> $LOG
 done
 echo DONE >> $LOG
